@@ -403,6 +403,10 @@ func (d *BFD) DecodeFromBytes(data []byte, df gopacket.DecodeFeedback) error {
 // SerializationBuffer, implementing gopacket.SerializableLayer.
 // See the docs for gopacket.SerializableLayer for more info.
 func (d *BFD) SerializeTo(b gopacket.SerializeBuffer, opts gopacket.SerializeOptions) error {
+	if d.AuthPresent && (d.AuthHeader != nil) && d.AuthHeader.Length() == 0 {
+		// Length() knows the layout of the authentication types below only
+		return errors.New("BFD authentication header of unknown type cannot be serialized")
+	}
 	data, err := b.PrependBytes(bfdMinimumRecordSizeInBytes)
 	if err != nil {
 		return err
